@@ -86,7 +86,7 @@ def expand(e, flat):
     return sx.with_children(e, [expand(c, flat) for c in sx.children(e)])
 
 
-def make_history(rng, length, focus=False):
+def make_history(rng, length, focus=False, partial_points=False):
     """focus=True: 2-3 points that are revisited (one inside most domains, one on boundaries), a
     small pool, and operations that keep returning to the same objects: the shape that exposes a
     stale memo (A at p; something sharing A's objects at q; A at p again / fail, then retry)"""
@@ -105,6 +105,8 @@ def make_history(rng, length, focus=False):
             p = [(3, rng.choice([0, -1, 2])), (2, rng.choice([0, 1, -2.5]))]
         else:
             p = [(2, gen.rnum(rng))]            # lacks a coordinate: CoordinateMissing half-way
+        if partial_points and k > 0:
+            p = [c for c in p if rng.random() < 0.6]     # any subset of the coordinates (C14)
         pts.append(p)
     ops = []
     model_lines = []      # per op: protocol line whose model answer must equal the op's outcome (or None)
@@ -340,7 +342,7 @@ def _expand_refs(s_, flat):
     return re.sub(r'\(REF (\d+)\)', lambda m: flat[int(m.group(1))], s_)
 
 
-def history_correspondence(ctx, rep, n, keep, maxlen=10, what='history', extra=None, disturb=()):
+def history_correspondence(ctx, rep, n, keep, maxlen=10, what='history', extra=None, disturb=(), partial_points=False):
     """histories restricted to the operation kinds in [keep] (plus the constructions they need); every
     operation's outcome against the pure model; a wrong kind or value is a concrete failing history.
     Operations of the kinds in [disturb] are executed too (they share objects and caches with the
@@ -350,7 +352,7 @@ def history_correspondence(ctx, rep, n, keep, maxlen=10, what='history', extra=N
     tries = 0
     while len(hs) < n and tries < 20 * n:
         tries += 1
-        h, ml = make_history(rng, rng.randint(4, maxlen), focus=(tries % 2 == 0))
+        h, ml = make_history(rng, rng.randint(4, maxlen), focus=(tries % 2 == 0), partial_points=partial_points)
         ops, m2 = [], []
         for op, l in zip(h['ops'], ml):
             if op[0] in keep or op[0].startswith('mk') or op[0] in ('pexpr', 'dexpr'):   # as_expression switches the object's path
@@ -586,6 +588,12 @@ def mutate_one(rng, e):
     def change(x):
         h = x[0]
         if h == 'C':
+            if rng.random() < 0.5:
+                # a numerically different value that is very close: one ulp, or 1e-10 .. 1e-13 relative
+                f = float(x[1])
+                y = math.nextafter(f, math.inf) if rng.random() < 0.4 else f * (1 + rng.choice([1e-10, 3e-11, 1e-12, -1e-10, 1e-13]))
+                if y != f and math.isfinite(y):
+                    return ('C', y)
             return ('C', x[1] + 1 if not isinstance(x[1], float) else x[1] + 0.5)
         if h == 'V':
             return ('V', x[1] + 1)
@@ -608,6 +616,10 @@ def mutate_one(rng, e):
             if rng.random() < 0.5:
                 return (h, x[1], x[2] + 1)
             return ('NthRoot' if h == 'NthPow' else 'NthPow', x[1], x[2])
+        if rng.random() < 0.3:
+            y = float(x[2]) * (1 + rng.choice([1e-10, 1e-12, -1e-11])) if rng.random() < 0.5 else math.nextafter(float(x[2]), math.inf)
+            if y != x[2] and y != 1 and y > 0:
+                return (h, x[1], y)                  # a base that is very close but not equal
         if rng.random() < 0.5:
             return (h, x[1], x[2] * 2 if x[2] * 2 != 1 else 3)
         return ('Log' if h == 'Exp' and x[2] != 1 else 'Exp', x[1], x[2])
@@ -806,6 +818,10 @@ def check_C14(ctx):
                     r, 'accepted' if acc else 'rejected', nv), b, [idx[r]])
     if b.impl[names] != 'ok':
         rep.oracle_fail('variable names: %s' % b.impl[names], b, [names])
+    # the same on USED objects: a call that stopped half-way with CoordinateMissing (or DomainError), then a
+    # call at a point with other coordinates; every answer against the pure model
+    history_correspondence(ctx, rep, sizes(tier, 300, 5000), ('at', 'located', 'pat', 'dat', 'dfat', 'dfcompat'),
+                           maxlen=sizes(tier, 12, 30), what='sequence', partial_points=True)
     return rep
 
 
@@ -815,8 +831,21 @@ def arg_stream(rng, n):
            sx.num_sx(1.0), sx.num_sx(2.0), sx.num_sx(0.0), sx.num_sx(-0.0), sx.num_sx(-3.0), sx.num_sx(2.5), sx.num_sx(0.5),
            sx.num_sx(1e300), sx.num_sx(1e16), sx.num_sx(4503599627370497.0), sx.num_sx(-1e-300), sx.num_sx(5e-324),
            sx.num_sx(float('inf')), sx.num_sx(float('-inf')), sx.num_sx(float('nan')), sx.num_sx(E), 'i1', sx.num_sx(7.0)]
+    # floats next to an integer (a tolerant integrality test would round them): one ulp, 1e-13 .. 1e-9 relative,
+    # and large magnitudes where a relative tolerance swallows a fractional part
+    near = [3.0000000000000004, 0.29 * 100, 0.1 * 3 * 10, math.nextafter(2.0, 3.0), math.nextafter(2.0, 1.0), 7.0 + 1e-13,
+            2.0000000001, 1.9999999999, 0.3 / 0.1, 1.0000000000000002, 0.9999999999999999, 2000000000.5, 1e10 + 0.75,
+            123456789.25, 4.000000001, 5 - 1e-12, 1e-12, 1 + 1e-9, 33.00000000001]
+    out += [sx.num_sx(x) for x in near]
     for _ in range(n):
         r = rng.random()
+        if r < 0.12:
+            k = rng.choice([1, 2, 3, 4, 5, 8, 12, 40, 1000, 10 ** 6, 10 ** 9])
+            d = rng.choice([1e-15, 1e-13, 1e-11, 1e-10, 3e-10, 1e-9, 1e-7]) * k * rng.choice([1, -1])
+            x = k + d
+            if x != k:
+                out.append(sx.num_sx(x))
+                continue
         if r < 0.35:
             out.append('i%d' % rng.randint(-6, 40))
         elif r < 0.6:
